@@ -2,7 +2,6 @@ package vf
 
 import (
 	"bytes"
-	"context"
 	"errors"
 	"fmt"
 	"math"
@@ -111,6 +110,23 @@ func (e *Env) scanCheck(l klevdb.Log, tag, what string) {
 		if i > 0 && got[i].Offset <= got[i-1].Offset {
 			e.failf(tag, "%s: offsets not strictly increasing at %d", what, i)
 		}
+		// "the same message": a missing key or value is handed out in one way (nil or empty), whichever reader,
+		// format version or rewrite the message has been through - callers (the typed wrappers) tell them apart
+		if e.rep == nil {
+			continue
+		}
+		rep := uint8(1)
+		if got[i].Key == nil {
+			rep |= 2
+		}
+		if got[i].Value == nil {
+			rep |= 4
+		}
+		if old, ok := e.rep[got[i].Offset]; ok && old != rep {
+			e.failf(tag, "%s: message %d (key len %d, value len %d) was first returned with key nil=%v value nil=%v, now key nil=%v value nil=%v", what,
+				got[i].Offset, len(got[i].Key), len(got[i].Value), old&2 != 0, old&4 != 0, rep&2 != 0, rep&4 != 0)
+		}
+		e.rep[got[i].Offset] = rep
 	}
 }
 
@@ -569,7 +585,16 @@ func (e *Env) timeSweep(l klevdb.Log, tag, what string) {
 // trims (C15)
 
 func (e *Env) applyTrim(op Op) {
-	ctx := context.Background()
+	ctx, noBackoff, cancel := backoffFor(op.FailAt)
+	defer cancel()
+	// the time bound of the age variants, with the case's nanoseconds below the microsecond: a bound between two
+	// representable message times selects what its microsecond selects
+	ageBound := func(us int64) time.Time {
+		return time.UnixMicro(e.absTS(us)).Add(time.Duration(op.Nanos) * time.Nanosecond)
+	}
+	if op.Nanos > 0 {
+		e.St.Inc("time_bounds_with_sub_microsecond_part")
+	}
 	pre := e.M.Clone()
 	var found map[int64]struct{}
 	var ferr error
@@ -586,7 +611,7 @@ func (e *Env) applyTrim(op Op) {
 		e.must("Stat", err)
 		found, ferr = klevdb.FindBySize(ctx, e.L, bound)
 	case "age":
-		found, ferr = klevdb.FindByAge(ctx, e.L, time.UnixMicro(e.absTS(bound)))
+		found, ferr = klevdb.FindByAge(ctx, e.L, ageBound(bound))
 	default:
 		panic("trim sub " + op.Sub)
 	}
@@ -630,15 +655,19 @@ func (e *Env) applyTrim(op Op) {
 	case "size2":
 		del, _, err = klevdb.TrimBySizeMultiOffsets(ctx, e.L, bound, noBackoff)
 	case "age0":
-		del, _, err = klevdb.TrimByAge(ctx, e.L, time.UnixMicro(e.absTS(bound)))
+		del, _, err = klevdb.TrimByAge(ctx, e.L, ageBound(bound))
 	case "age1":
-		del, _, err = klevdb.TrimByAgeMulti(ctx, e.L, time.UnixMicro(e.absTS(bound)), noBackoff)
+		del, _, err = klevdb.TrimByAgeMulti(ctx, e.L, ageBound(bound), noBackoff)
 	case "age2":
 		var offs map[int64]struct{}
-		offs, _, err = klevdb.TrimByAgeMultiOffsets(ctx, e.L, time.UnixMicro(e.absTS(bound)), noBackoff)
+		offs, _, err = klevdb.TrimByAgeMultiOffsets(ctx, e.L, ageBound(bound), noBackoff)
 		del = e.offsetsAsMessages(offs)
 	}
-	if err != nil && !emptyTimeLog {
+	interrupted := err != nil && op.FailAt > 0 && injected(err)
+	if interrupted {
+		e.flag("multi-interrupted")
+		e.St.Inc("multi_calls_interrupted_by_backoff")
+	} else if err != nil && !emptyTimeLog {
 		e.failf("err", "TrimBy%s(%d) variant %d failed: %v", op.Sub, bound, op.Variant, err)
 	}
 	e.applyDeleted(tag, del, nil)
@@ -678,7 +707,8 @@ func (e *Env) applyTrim(op Op) {
 			e.flag("trim-after-hole")
 		}
 	}
-	multi := op.Variant >= 1
+	// an interrupted Multi call has reported what it removed (checked above against the log); its bound is not reached
+	multi := op.Variant >= 1 && !interrupted
 	switch op.Sub {
 	case "offset":
 		for _, d := range del {
@@ -765,14 +795,18 @@ func latestEq(a, b map[string]string) string {
 }
 
 func (e *Env) applyCompact(op Op) {
-	ctx := context.Background()
+	ctx, noBackoff, cancel := backoffFor(op.FailAt)
+	defer cancel()
 	pre := e.M.Clone()
 	l0 := pre.Latest()
 	tag := "compact"
 	var del []klevdb.Message
 	var err error
 	cut := e.absTS(op.N)
-	before := time.UnixMicro(cut)
+	before := time.UnixMicro(cut).Add(time.Duration(op.Nanos) * time.Nanosecond)
+	if op.Nanos > 0 {
+		e.St.Inc("time_bounds_with_sub_microsecond_part")
+	}
 	reported := true
 	switch op.Sub + fmt.Sprint(op.Variant) {
 	case "updates0":
@@ -795,7 +829,13 @@ func (e *Env) applyCompact(op Op) {
 		reported = false
 		err = klevdb.Compact(ctx, e.L, time.Duration(op.N)*time.Microsecond, noBackoff)
 	}
-	e.must("Compact"+op.Sub, err)
+	interrupted := err != nil && op.FailAt > 0 && injected(err)
+	if interrupted {
+		e.flag("multi-interrupted")
+		e.St.Inc("multi_calls_interrupted_by_backoff")
+	} else {
+		e.must("Compact"+op.Sub, err)
+	}
 	if reported {
 		e.applyDeleted(tag, del, nil)
 	} else {
@@ -875,7 +915,7 @@ func (e *Env) applyCompact(op Op) {
 				e.failf(tag, "CompactUpdates(%d) removed message %d which has no later message with the same key", cut, d.Offset)
 			}
 		}
-		if op.Variant >= 1 && pre.Mono {
+		if op.Variant >= 1 && pre.Mono && !interrupted {
 			cnt := map[string]int{}
 			for _, x := range e.M.Live {
 				if x.TS <= cut {
